@@ -2,13 +2,13 @@
 
 Bounded-exhaustive program/configuration enumeration (E3) against a reference.
 
-*Programs.*  A 13-feature menu (public / ``_protected`` / ``__private`` /
+*Programs.*  A 14-feature menu (public / ``_protected`` / ``__private`` /
 ``_Cls__mangled``-looking module functions, a function imported from a helper
 module, a class re-exported from the helper, a class with public / protected /
 private / dunder / static / class methods, a nested class, lambdas bound to
 module-level names, an ``Enum``, a subclass of an imported base, a property, a
 module-level constant + instance).  Every subset of the menu (quick: every
-subset of size <= 4 plus the full set; thorough: all 2^13) is written as a real
+subset of size <= 4 plus the full set; thorough: all 2^14) is written as a real
 module plus a real helper module under ``ctx.scratch()`` (unique module names
 per case) and handed to the real ``generate_test_cluster``.
 
@@ -151,6 +151,19 @@ class WithProp:
         return 0
 '''),
     ("const", "CONST = 42\nINSTANCE = {'k': [1, 2]}\n"),
+    # a class whose own name starts with an underscore: Python strips the leading underscores of the class
+    # name when it mangles ``__step`` (-> ``_Impl__step``)
+    ("protcls", '''\
+class _Impl:
+    def __init__(self, n):
+        self.n = n
+
+    def run(self):
+        return self.n
+
+    def __step(self):
+        return 1
+'''),
 )
 FEATURE_NAMES = tuple(n for n, _ in FEATURES)
 NF = len(FEATURES)
